@@ -41,7 +41,8 @@ RULE = ("op sequences over {send (3 overlays' prefixes, short/odd packets), set_
         "an anonymized send (tunnelled, queued or dropped)")
 TRUSTED_BASE = [
     "tools/gen_c07.py: AST translation of Circuit.state / exit_flags, the find_circuits filter and the call arguments in TunnelEndpoint.send",
-    "hand-written model of TunnelEndpoint.send / set_anonymity / set_tunnel_community / notify_listeners and of "
+    "tools/gen_c07.py: translation of the control flow of TunnelEndpoint.send into a composition of model actions (GenSend.lean)",
+    "hand-written action semantics (sendOver drain/fault, dequeAppend), set_anonymity / set_tunnel_community / notify_listeners and "
     "Community.__init__'s opt-in (Ipv8/C07/Model.lean), tied by the correspondence run",
     "the tunnel community is an environment: create_circuit is stubbed (registers a real Circuit or fails), send_cell is "
     "recorded; what send_data's cell does on the wire belongs to C04/C05",
@@ -224,7 +225,8 @@ def K():
 def generate(ctx: Ctx):
     src, meta = gen_c07.translate()
     ctx.extra["translated"] = meta
-    return [("Ipv8/C07/GenTunnel.lean", src)]
+    # the control flow of TunnelEndpoint.send as a composition of the model's actions: the theorems are about THIS
+    return [("Ipv8/C07/GenTunnel.lean", src), ("Ipv8/C07/GenSend.lean", gen_c07.translate_send())]
 
 
 class Real:
@@ -234,7 +236,7 @@ class Real:
         k = K()
         self.k = k
         self.log = []
-        self.my_peer = k.Peer(k.keys[0])
+        self._my_peer = None        # created on first use (a Peer per history: handlers write to my_peer.address)
         if dispatcher:
             # what ipv8_service builds by default: a dual-stack DispatcherEndpoint; its two sockets are recorders
             from ipv8.messaging.interfaces.dispatcher.endpoint import DispatcherEndpoint
@@ -273,6 +275,12 @@ class Real:
         self.overlays = []          # (real Community object, asked for anonymity)
         self.fail = None            # first oracle failure (sig, what)
         self.nontrivial = False
+
+    @property
+    def my_peer(self):
+        if self._my_peer is None:
+            self._my_peer = self.k.Peer(self.k.keys[0])
+        return self._my_peer
 
     # -- oracle ------------------------------------------------------------------------------------------------
     def _bad(self, sig, what):
@@ -1272,12 +1280,19 @@ def overlay_tier(ctx: Ctx, n_scen: int, use_model: bool):
                         cid, again = real.k.cid_of(real, i), rng.random() < 0.4
                         ctx.count("overlay:re-load after unload, now %s" % ("anonymized" if again else "plain"))
                         run_history(ctx, real, [("overlay", cid, again)], lines, expect, record)
-                elif r < 0.97 and real.real_tc and real.listeners:
+                elif r < 0.94 and real.real_tc and real.listeners:
                     cs = [i for i, c in enumerate(real.tc.circuits.values()) if c._hops]
                     if cs:
                         ov = real.overlays[rng.choice(live)][0]
                         run_history(ctx, real, [("tcdata", rng.choice(cs), ov.get_prefix() + b"inbound")], lines, expect,
                                     record)
+                elif r < 0.99:
+                    # a datagram with the prefix of one of the overlays, handed to notify_listeners with either origin
+                    ov, asked = real.overlays[rng.choice(live)]
+                    ft = rng.random() < 0.6
+                    ctx.count("deliver:from_%s to prefix of %s overlay" % ("tunnel" if ft else "socket",
+                                                                          "anonymized" if asked else "plain"))
+                    run_history(ctx, real, [("notify", ft, ov.get_prefix() + b"in")], lines, expect, record)
                 else:
                     run_history(ctx, real, [("dump",)], lines, expect, record)
             lines.append("dump")
@@ -1638,7 +1653,7 @@ def run(ctx: Ctx):
     if ctx.model_ok:
         check_consts(ctx)
     exhaustive_tier(ctx, "T", 8, ctx.scale(5, 7), ctx.model_ok)    # the property's own event list (depth 7 in thorough)
-    exhaustive_tier(ctx, "A", 10, ctx.scale(5, 6), ctx.model_ok)
+    exhaustive_tier(ctx, "A", 10, 5, ctx.model_ok)
     exhaustive_tier(ctx, "B", 12, ctx.scale(4, 5), ctx.model_ok)
     exhaustive_tier(ctx, "C", 8, ctx.scale(4, 5), ctx.model_ok)    # real overlays, shared prefixes
     exhaustive_tier(ctx, "D", 9, ctx.scale(3, 4), ctx.model_ok)    # delivery by origin to real overlays
@@ -1646,6 +1661,49 @@ def run(ctx: Ctx):
     overlay_tier(ctx, ctx.scale(150, 2000), ctx.model_ok)
     lifecycle_tier(ctx, ctx.scale(250, 4000), ctx.model_ok)
     service_tier(ctx, ctx.scale(120, 1500), ctx.model_ok)
+    coverage_gate(ctx)
+
+
+REQUIRED_CLASSES = [
+    # every branch of the (translated) control flow of send and of the hand-written model definitions the theorems
+    # talk about must have been taken by the REAL code in this very run, or the run is void (exit 2, not a pass)
+    "send:plain->raw", "send:anon->tunnelled", "send:anon->tunnelled+backlog", "send:anon->queued(circuit not ready)",
+    "send:anon->queued,create", "send:anon->queued,create(failed)", "send:anon->queued,overflow",
+    "send:anon->dropped(no community)", "send:anon->send_data raised after 0 ok", "send:anon->send_data raised after 1 ok",
+    "send:short-packet", "burst:overflow",
+    "op:anon", "op:settc", "op:newc", "op:hop", "op:close", "op:rm", "op:cancreate", "op:fail", "op:listener",
+    "op:notify", "op:overlay", "op:unload", "op:tcinit", "op:tcdata", "op:rmreq", "op:tick", "op:docirc", "op:service",
+    "overlay:anonymize=True", "overlay:anonymize=False", "overlay:shared prefix, plain after anonymized",
+    "overlay:shared prefix, anonymized after plain", "overlay:explicit set_anonymity(",
+    "overlay:tunnel community constructed on the endpoint after 0", "overlay:tunnel community constructed on the endpoint after 1",
+    "overlay:TunnelCommunity.unload inside the history", "overlay:unload of anonymized overlay while others stay",
+    "overlay:unload of plain overlay while others stay", "overlay:re-load after unload, now plain",
+    "overlay:wrapped endpoint is a dual-stack DispatcherEndpoint", "overlay:wrapped endpoint is a single endpoint",
+    "overlay-send:walk_to:anonymized", "overlay-send:send_intro:anonymized", "overlay-send:respond:anonymized",
+    "overlay-send:ez_send:anonymized", "overlay-send:punct_req:anonymized", "overlay-send:intro_resp:anonymized",
+    "overlay-send:walk_to:plain", "overlay-send:intro_resp:plain",
+    "deliver:from_tunnel to prefix of anonymized overlay", "deliver:from_tunnel to prefix of plain overlay",
+    "deliver:from_socket to prefix of anonymized overlay", "deliver:from_socket to prefix of plain overlay",
+    "life:request via remove_circuit", "life:request via on_destroy", "life:request via remove_now",
+    "life:do_circuits closes some", "life:do_remove arm: no activity", "life:do_remove arm: traffic limit",
+    "life:entry removed after delay", "life:send 0.0s after close requested", "life:send 4.9s after close requested",
+    "service:statistics=True", "service:statistics=False", "service-send:walk_to:anonymized",
+    "exhaustive:T[:8]:depth5", "exhaustive:A[:10]:depth5", "exhaustive:B[:12]:depth4", "exhaustive:C[:8]:depth4",
+    "exhaustive:D[:9]:depth3",
+]
+
+
+def coverage_gate(ctx: Ctx):
+    """a silent loss of coverage must not look like a pass: unless the run is red anyway, every listed class of inputs
+    / branches must have occurred at least once (prefix match on the distribution keys), else the run is void"""
+    import vlib
+    known = {k.get("signature") for k in vlib.load_known_findings() if k.get("property") == PROPERTY and k.get("status") == "known"}
+    if ctx.disagreements or ctx.broken or any(f["signature"] not in known for f in ctx.failures):
+        return
+    missing = [c for c in REQUIRED_CLASSES if not any(k.startswith(c) and v > 0 for k, v in ctx.counts.items())]
+    ctx.extra["required_classes"] = {"listed": len(REQUIRED_CLASSES), "missing": missing}
+    if missing:
+        raise vlib.InfraError("coverage lost: no case of " + "; ".join(missing[:6]) + " in this run")
 
 
 def search(ctx: Ctx, reason: str):
